@@ -30,9 +30,12 @@ type kvOp struct {
 	Flags uint32 `json:"flags,omitempty"` // putext / applyflags; browse, browseall, reopen+walk: what the walk function returns
 	Force bool   `json:"force,omitempty"` // defrag
 	Abort int    `json:"abort,omitempty"` // browse: the walk function answers BR_ABORT at the n-th record (0 = never)
-	Load  bool   `json:"load,omitempty"`  // reopen: LoadData
-	Walk  bool   `json:"walk,omitempty"`  // reopen: pass a WalkFunction (returns Flags)
-	Vol   int    `json:"vol,omitempty"`   // reopen: 0 keep the mode, 1 volatile, 2 non-volatile
+	// browse: the flag change returned together with BR_ABORT for that n-th record ("take it, hide it, stop");
+	// the records before it get Flags
+	AFlags uint32 `json:"aflags,omitempty"`
+	Load   bool   `json:"load,omitempty"` // reopen: LoadData
+	Walk   bool   `json:"walk,omitempty"` // reopen: pass a WalkFunction (returns Flags)
+	Vol    int    `json:"vol,omitempty"`  // reopen: 0 keep the mode, 1 volatile, 2 non-volatile
 }
 
 type kvCase struct {
@@ -98,6 +101,7 @@ type kvSummary struct {
 	ReopenAfterOverwriteOrDelete               bool
 	NoCache, NoBrowse, Defrags, Syncs, Browses int
 	BigValue                                   bool
+	AbortWithFlag                              int // a walk function answered NO_BROWSE (or more) together with BR_ABORT
 }
 
 type kvRunner struct {
@@ -184,8 +188,9 @@ func short(v []byte) string {
 }
 
 // browse runs Browse or BrowseAll with a walk function answering fl (and BR_ABORT at the abort-th record)
-func (r *kvRunner) browse(all bool, fl uint32, abort int) (map[qdb.KeyType][]byte, int, error) {
+func (r *kvRunner) browse(all bool, fl uint32, abort int, afl uint32) (map[qdb.KeyType][]byte, map[qdb.KeyType]uint32, int, error) {
 	got := map[qdb.KeyType][]byte{}
+	ret := map[qdb.KeyType]uint32{} // what the walk function answered for each record it was shown
 	n := 0
 	var dup error
 	walk := func(k qdb.KeyType, v []byte) uint32 {
@@ -194,8 +199,10 @@ func (r *kvRunner) browse(all bool, fl uint32, abort int) (map[qdb.KeyType][]byt
 			dup = fmt.Errorf("key %016x listed twice", uint64(k))
 		}
 		got[k] = append([]byte{}, v...)
+		ret[k] = fl
 		if abort > 0 && n >= abort {
-			return qdb.BR_ABORT
+			ret[k] = afl
+			return qdb.BR_ABORT | afl
 		}
 		return fl
 	}
@@ -204,14 +211,14 @@ func (r *kvRunner) browse(all bool, fl uint32, abort int) (map[qdb.KeyType][]byt
 	} else {
 		r.db.Browse(walk)
 	}
-	return got, n, dup
+	return got, ret, n, dup
 }
 
 func (r *kvRunner) checkAll(step string) error {
 	if n := r.db.Count(); n != len(r.m) {
 		return fmt.Errorf("%s: Count() = %d, the map has %d keys", step, n, len(r.m))
 	}
-	got, _, err := r.browse(true, 0, 0)
+	got, _, _, err := r.browse(true, 0, 0, 0)
 	if err != nil {
 		return fmt.Errorf("%s: BrowseAll: %v", step, err)
 	}
@@ -269,7 +276,7 @@ func (r *kvRunner) do(i int, o kvOp) error {
 	case "browse", "browseall":
 		r.sum.Browses++
 		all := o.Op == "browseall"
-		got, n, err := r.browse(all, o.Flags, o.Abort)
+		got, ret, n, err := r.browse(all, o.Flags, o.Abort, o.AFlags)
 		if !r.check {
 			break
 		}
@@ -299,13 +306,21 @@ func (r *kvRunner) do(i int, o kvOp) error {
 			if n < min {
 				return fmt.Errorf("%s stopped after %d records, at least %d expected", o.Op, n, min)
 			}
+			// the flag change a walk function returns applies to the record it returned it for - also when it
+			// comes together with BR_ABORT
+			for kk, fl := range ret {
+				applyBrowseFlag(r.m[keyIndex(kk)], fl)
+				if fl&qdb.NO_BROWSE != 0 && n == o.Abort && fl == o.AFlags {
+					r.sum.AbortWithFlag++
+				}
+			}
 			break
 		}
 		if err := r.compareListing(o.Op, got, nil, !all); err != nil {
 			return err
 		}
-		for kk := range got {
-			applyBrowseFlag(r.m[keyIndex(kk)], o.Flags)
+		for kk, fl := range ret {
+			applyBrowseFlag(r.m[keyIndex(kk)], fl)
 		}
 	case "applyflags":
 		r.db.ApplyFlags(key, o.Flags)
